@@ -295,6 +295,8 @@ impl<'lexer> Lexer<'lexer> {
         Ok((TokenType::If, TokenValue::If))
       }
       ['i', 'n', WS, _, _, _, _, _, _, _, _, _] => {
+        // the variable name that lasts till this keyword has ended
+        self.till_in = false;
         self.position += 2;
         Ok((TokenType::In, TokenValue::In))
       }
@@ -891,7 +893,8 @@ impl<'lexer> Lexer<'lexer> {
   /// Returns **true* when the next character on input is the additional name symbol.
   fn is_next_additional_name_symbol(&self) -> bool {
     if let Some(ch) = self.char_at(1) {
-      is_additional_name_symbol(ch)
+      // the `/` that opens a comment is not a part of the name
+      is_additional_name_symbol(ch) && !self.is_comment_start(1)
     } else {
       false
     }
